@@ -330,7 +330,8 @@ def search(mod, args):
                     v["cfgname"] = agg["cfgname"]
                     violations.append(v)
                 harness_errors.extend(agg["harness_errors"])
-                if len(violations) >= 12 or harness_errors:
+                n_new = sum(1 for v in violations if any(x["sig"] not in known for x in v["violations"]))
+                if n_new >= 12 or harness_errors:
                     # the verdict is settled: do not burn the rest of the budget (queued chunks are
                     # dropped, running ones finish); the evidence reports the runs actually done
                     stopped_early = True
